@@ -314,6 +314,49 @@ def headerCheck (cmd : String) (ps : List Str) : Except String (HCmd × List Str
     else .error "mod"
   else .error "cmd"
 
+/-! ### mod_header: `%variable` templates in header values (splitParam / preProcessParams / getHeaderValue) -/
+
+/-- characters of a variable name: `variableCharset` = a-z 0-9 _ -/
+def isVarChar (c : Char) : Bool := ('a' ≤ c && c ≤ 'z') || ('0' ≤ c && c ≤ '9') || c == '_'
+
+/-- mod_header.splitParam: cut a value template into literal text (up to the next `%`), escaped text (`%%` + text up to
+    the next `%`), and variable references (`%` + the longest run of name characters; a lone `%` at the end is a piece
+    of its own).  `fuel` ≥ length of the input. -/
+def splitParam : Nat → Str → List Str
+  | 0, _ => []
+  | _, [] => []
+  | _ + 1, ['%'] => [['%']]
+  | f + 1, '%' :: '%' :: rest =>
+    ('%' :: '%' :: rest.takeWhile (· != '%')) :: splitParam f (rest.dropWhile (· != '%'))
+  | f + 1, '%' :: c :: rest =>
+    ('%' :: (c :: rest).takeWhile isVarChar) :: splitParam f ((c :: rest).dropWhile isVarChar)
+  | f + 1, c :: rest =>
+    (c :: rest.takeWhile (· != '%')) :: splitParam f (rest.dropWhile (· != '%'))
+
+def splitTemplate (s : Str) : List Str := splitParam s.length s
+
+/-- is the piece a variable reference (`%...` but not `%%...`)? then its name -/
+def varRef (p : Str) : Option Str :=
+  match p with
+  | '%' :: '%' :: _ => none
+  | '%' :: name => some name
+  | _ => none
+
+/-- preProcessParams: every variable reference must name an entry of the handler table (compared in lower case) -/
+def templateLoads (vars : List String) (s : Str) : Bool :=
+  (splitTemplate s).all fun p =>
+    match varRef p with
+    | some name => vars.contains (String.ofList (name.map Char.toLower))
+    | none => true
+
+/-- getHeaderValue: a piece starting with `%` is the handler's value if its tail names a handler, else its tail
+    (so `%%x` yields `%x`); other pieces are copied -/
+def expandTemplate (value : Str → Option Str) (s : Str) : Str :=
+  ((splitTemplate s).map fun p =>
+    match p with
+    | '%' :: tail => (match value tail with | some v => v | none => tail)
+    | _ => p).flatten
+
 /-! ### mod_redirect -/
 
 inductive RCmd where
